@@ -498,7 +498,8 @@ Definition step (P : params) (s : state) (l : label) : option state :=
       match k_pc k with
       | KInRun =>
         if N.eqb (k_child k) c && exit_ok P c e s
-        then Some (set_kids (upd i (set_kpc (KExited e)) (kids s)) s) else None
+        then Some (set_kids (upd i (set_kpc (if benign e then KDone else KExited e)) (kids s)) s)
+        else None
       | _ => None
       end
     | None => None
